@@ -50,6 +50,9 @@ type ProxyOpts struct {
 	// reflection like OnAccept, applied before OnAccept's tap and before Run starts serving): lets a scenario
 	// script what Accept returns (see ScriptedListener).
 	WrapListener func(net.Listener) net.Listener
+	// Matcher, when set, is the credentials matcher OBJECT handed to NewHTTPProxy (instead of one built from
+	// Credentials): lets a scenario give several instances the same matcher.
+	Matcher *forwarder.CredentialsMatcher
 }
 
 // ErrNoListenerTap: the proxy's listener slice could not be reached (field renamed or retyped).
@@ -148,9 +151,11 @@ func StartProxy(o ProxyOpts) (*Proxy, error) {
 		}
 		pr = p
 	}
-	cm, err := forwarder.NewCredentialsMatcher(o.Credentials, lg)
-	if err != nil {
-		return nil, fmt.Errorf("credentials: %w", err)
+	cm := o.Matcher
+	if cm == nil {
+		if cm, err = forwarder.NewCredentialsMatcher(o.Credentials, lg); err != nil {
+			return nil, fmt.Errorf("credentials: %w", err)
+		}
 	}
 	hp, err := forwarder.NewHTTPProxy(cfg, pr, cm, rt, lg, nil)
 	if err != nil {
